@@ -27,7 +27,7 @@ fn palette_forms() -> Vec<Result<String, Cell>> {
         Ok("(vector 1 2 3)".into()),
         Ok("(let ((v (vector 1 2))) (vector-set! v 1 v) v)".into()),
         Ok("(make-string 0 #\\a)".into()),
-        Ok("(list->string (map integer->char '(97 241 128512)))".into()),
+        Ok("(list->string (map integer->char '(97 241 128512 133 155 7 92 34)))".into()),
         Ok("#\\a".into()),
         Ok("(integer->char 128512)".into()),
         Ok("0".into()),
@@ -58,6 +58,7 @@ fn palette_forms() -> Vec<Result<String, Cell>> {
         Ok("(integer->char 1636)".into()),
         Ok("2".into()),
         Ok("16".into()),
+        Ok("(- (- (expt 2 64) (expt 2 64)) 1)".into()),
     ]
 }
 
